@@ -248,6 +248,12 @@ fn collect_refs(v: &serde_json::Value, out: &mut Vec<(HandleId, SubMode)>) {
     }
 }
 
+pub fn json_refs(v: &serde_json::Value) -> Vec<(HandleId, SubMode)> {
+    let mut out = Vec::new();
+    collect_refs(v, &mut out);
+    out
+}
+
 pub fn op_refs(op: &Op) -> Vec<(HandleId, SubMode)> {
     let mut out = Vec::new();
     collect_refs(&serde_json::to_value(op).unwrap(), &mut out);
